@@ -17,7 +17,7 @@ import os
 import pickle
 
 from vlib import gen, wsharness as wh
-from vlib.common import exc_site, fp
+from vlib.common import exc_site, fp, retry_on_timeout
 
 LEVEL = "exploration"
 SHARD_TIMEOUT = {"quick": 280, "thorough": 1700}
@@ -340,7 +340,7 @@ async def amain(spec, acc, ctx):
                     acc.note("exhaustive enumeration cut")
                     await server.stop()
                     return
-                await r.run_sequence(pre + list(rest))
+                await retry_on_timeout(acc, lambda: r.run_sequence(pre + list(rest)))
         acc.add("exhaustive_prefixes", ".".join(pre))
     elif spec["kind"] == "variants":
         # the complete workflow with one extra operation inserted at every position, and followed by every tail
@@ -358,7 +358,7 @@ async def amain(spec, acc, ctx):
             if ctx.out_of_time() or acc.counters.get("timeouts", 0) > 3 or acc.n_violations > 25:
                 acc.count("variants_incomplete")
                 break
-            await r.run_sequence(sq, spec["scheme"])
+            await retry_on_timeout(acc, lambda: r.run_sequence(sq, spec["scheme"]))
         acc.add("schemes", spec["scheme"])
     else:
         # longer random sequences biased towards progress, schemes rotated
@@ -372,7 +372,7 @@ async def amain(spec, acc, ctx):
             for _ in range(n):
                 seq.append(ctx.rng.choice(prog[:min(len(prog), len(seq) + 2)]) if ctx.rng.random() < 0.6
                            else ctx.rng.choice(OPS))
-            await r.run_sequence(seq, scheme)
+            await retry_on_timeout(acc, lambda: r.run_sequence(seq, scheme))
             acc.add("schemes", scheme)
     await server.stop()
 
